@@ -49,12 +49,12 @@ INT_MIN = -2 ** 31
 
 # ------------------------------------------------------------------------------------------ name sets
 
-def resolve_symbols(H, T, suffix):
-    """symbol -> name for a table of size T (names end in `suffix`)."""
-    L = G.colliders(H, T, T - 1, 3, suffix)
-    F = G.colliders(H, T, 0, 1, suffix, avoid=L)[0]
+def resolve_symbols(H, T, pre):
+    """symbol -> name for a table of size T (names start with the tag `pre`)."""
+    L = G.colliders(H, T, T - 1, 3, pre)
+    F = G.colliders(H, T, 0, 1, pre, avoid=L)[0]
     wslot = H.slot(b"world", T)
-    W = G.colliders(H, T, wslot, 1, suffix, avoid=L + [F])[0]
+    W = G.colliders(H, T, wslot, 1, pre, avoid=L + [F])[0]
     # P: an extension of L0 (L0 is a strict prefix of P) that ALSO lives in the last slot, so that a lookup of either one
     # walks over the other one first, depending on the insertion order
     P = None
@@ -101,10 +101,10 @@ def _long(K):
     return (base + ["z" * LONGN + str(i) for i in range(K)])[:K]
 
 
-def curated(scheme, K, H, T, suffix):
+def curated(scheme, K, H, T, pre):
     """K names for a type whose table has size T."""
     def sfx(lst):
-        return [s + suffix if s != "" else "" for s in lst[:K]]
+        return [pre + s if s != "" else "" for s in lst[:K]]
     if scheme == "basic":
         return sfx(BASIC)
     if scheme == "worldish":
@@ -126,17 +126,17 @@ def curated(scheme, K, H, T, suffix):
     if scheme == "long":
         return sfx(_long(K))
     if scheme == "collide_last":
-        return G.colliders(H, T, T - 1, K, suffix)
+        return G.colliders(H, T, T - 1, K, pre)
     if scheme == "collide_first":
-        return G.colliders(H, T, 0, K, suffix)
+        return G.colliders(H, T, 0, K, pre)
     if scheme == "collide_mid":
-        return G.colliders(H, T, T // 2, K, suffix)
+        return G.colliders(H, T, T // 2, K, pre)
     if scheme == "cluster_wrap":   # alternate home slots T-2 / T-1: the cluster wraps and interleaves two chains
-        a = G.colliders(H, T, T - 2, K, suffix)
-        b = G.colliders(H, T, T - 1, K, suffix, avoid=a)
+        a = G.colliders(H, T, T - 2, K, pre)
+        b = G.colliders(H, T, T - 1, K, pre, avoid=a)
         return [(a if i % 2 == 0 else b)[i // 2] for i in range(K)]
     if scheme == "collide_unnamed_mid":
-        c = G.colliders(H, T, T - 1, K, suffix)
+        c = G.colliders(H, T, T - 1, K, pre)
         c[K // 2] = ""
         return c
     if scheme == "basic_unnamed_mid":
@@ -146,9 +146,9 @@ def curated(scheme, K, H, T, suffix):
     if scheme == "all_unnamed":
         return [""] * K
     if scheme == "only_last_named":
-        return [""] * (K - 1) + ["a" + suffix]
+        return [""] * (K - 1) + [pre + "a"]
     if scheme == "only_first_named":
-        return ["a" + suffix] + [""] * (K - 1)
+        return [pre + "a"] + [""] * (K - 1)
     raise KeyError(scheme)
 
 
@@ -173,17 +173,17 @@ def names_for(item, H):
         if n[key] == 0:
             continue
         T = 2 * nt[key]
-        suffix = ("." + key) if tag else ""
+        pre = (key + ".") if tag else ""     # a tag PREFIX: per-type-disjoint names
         if kind == "lattice":
-            sym = resolve_symbols(H, T, suffix)
+            sym = resolve_symbols(H, T, pre)
             lst = [sym[s] for s in tup]
         else:
-            lst = curated(scheme, K, H, T, suffix)
+            lst = curated(scheme, K, H, T, pre)
         r = ti % K
         lst = lst[r:] + lst[:r]
         if not G.UNNAMED_OK[key]:
-            lst = [s if s != "" else "u%d%s" % (i, suffix) for i, s in enumerate(lst)]
-        lst = lst + ["zz%d%s" % (i, suffix) for i in range(n[key] - K)]   # fillers (per-type object counts differ)
+            lst = [s if s != "" else "%su%d" % (pre, i) for i, s in enumerate(lst)]
+        lst = lst + ["%szz%d" % (pre, i) for i in range(n[key] - K)]   # fillers (per-type object counts differ)
         names[key] = lst
     cam = [s for s in names.get("camera", []) if s]
     modelname = cam[0] if cam else "m"
